@@ -156,41 +156,45 @@ fn run_case(c: &Case) -> Result<usize, String> {
 }
 
 fn explore(ctx: &Ctx) {
-    let n_build = ctx.pick(4, 6);
+    let n_build = ctx.pick(4, 5);
     let n_probe = ctx.pick(3, 4);
     let mut alpha: Vec<Option<u64>> = HASHES.iter().map(|h| Some(*h)).collect();
     alpha.push(None);
     let builds = enumerate::sequences(&alpha, 0, n_build);
     let probes = enumerate::sequences(&[HASHES[0], HASHES[1], ABSENT], 0, n_probe);
-    let mut cases: Vec<Case> = vec![];
+    // (probe sequence, validity mask) pairs, shared by every build
+    let mut probe_cases: Vec<(Vec<u64>, Option<Vec<bool>>)> = vec![];
+    for p in &probes {
+        probe_cases.push((p.clone(), None));
+        if !p.is_empty() {
+            for m in enumerate::masks(p.len()) {
+                if m.iter().any(|x| !*x) {
+                    probe_cases.push((p.clone(), Some(m)));
+                }
+            }
+        }
+    }
+    // the outer product is materialised, the probe dimension is generated per item (memory stays small)
+    let mut outer: Vec<(Vec<Vec<Option<u64>>>, bool, bool)> = vec![];
     for b in &builds {
         for split in enumerate::splits(b.len(), 2) {
             let batches = enumerate::apply_split(b, &split);
             for fifo in [true, false] {
                 for wide in [false, true] {
-                    for p in &probes {
-                        let mut valids: Vec<Option<Vec<bool>>> = vec![None];
-                        if !p.is_empty() {
-                            for m in enumerate::masks(p.len()) {
-                                if m.iter().any(|x| !*x) {
-                                    valids.push(Some(m));
-                                }
-                            }
-                        }
-                        for v in valids {
-                            cases.push(Case { wide, fifo, build: batches.clone(), probe: p.clone(), valid: v });
-                        }
-                    }
+                    outer.push((batches.clone(), fifo, wide));
                 }
             }
         }
     }
     ctx.set_extra("bounds", json!({"max_build_rows": n_build, "max_build_batches": 2, "max_probe_rows": n_probe,
-        "build_alphabet": "3 hashes + NULL key", "probe_alphabet": "2 present hashes + 1 absent", "limits": "1..=total+1"}));
-    cases.par_iter().for_each(|c| {
+        "build_alphabet": "3 hashes + NULL key", "probe_alphabet": "2 present hashes + 1 absent", "limits": "1..=total+1",
+        "cases": outer.len() * probe_cases.len()}));
+    outer.par_iter().for_each(|(batches, fifo, wide)| {
+      for (p, v) in &probe_cases {
         if ctx.should_stop() {
             return;
         }
+        let c = &Case { wide: *wide, fifo: *fifo, build: batches.clone(), probe: p.clone(), valid: v.clone() };
         ctx.eval();
         match mc_core::catch(|| run_case(c)).unwrap_or_else(Err) {
             Ok(pages) => {
@@ -214,6 +218,7 @@ fn explore(ctx: &Ctx) {
                 ctx.violation(key, what, serde_json::to_value(c).unwrap());
             }
         }
+      }
     });
 }
 
